@@ -293,6 +293,9 @@ func init() {
 		n := int(ex.termInt64(ex.concretize(a[2].(*Term), "verifUF outLen")))
 		return ex.bytesSlice(ex.ufBytes(name, in, n))
 	}
+	harnessAPI["verifThorough"] = func(ex *Exec, fn *ssa.Function, a []Value) Value {
+		return ex.tt.Bool(ex.eng.tier == "thorough")
+	}
 	harnessAPI["verifIsSymbolic"] = func(ex *Exec, fn *ssa.Function, a []Value) Value {
 		return ex.tt.Bool(true)
 	}
